@@ -7,7 +7,7 @@ from .. import cv, gen, lib, ref
 from ..lib import call
 
 PROP = "C08"
-PLAN = {"quick": (1300, 400), "thorough": (72000, 3600)}
+PLAN = {"quick": (1300, 400), "thorough": (40000, 3600)}
 RULE = ("case = (A, B, operator, scalar / matrix); pairs on a common interval: equal / different degrees x no / shared / "
         "disjoint interior knots x equal / different multiplicities at shared knots x polynomial / rational x scalar / "
         "vector points; operators + - * @ / unary -, s+A, A+s, s-A, A-s, s*A, A*s, A/s, s/A, M@A, A@M; plus pairs on "
